@@ -135,7 +135,7 @@ Record tcase := mkCase {
 
 Definition check_case (c : tcase) : bool :=
   let sc := match tc_rl c, tc_rr c with
-            | Some (l, h), _ => Some (RL TLoss l h None true false 0)
+            | Some (l, h), _ => Some (RL TLoss l h None true false (0, 0))
             | None, Some l => Some (RR TLoss (map unseeded l) 0)
             | None, None => None end in
   match M_construct (tc_cfg c) (tc_samplers c) sc with
@@ -148,7 +148,7 @@ Definition check_case (c : tcase) : bool :=
 
 Definition first_bad (c : tcase) : option nat :=
   let sc := match tc_rl c, tc_rr c with
-            | Some (l, h), _ => Some (RL TLoss l h None true false 0)
+            | Some (l, h), _ => Some (RL TLoss l h None true false (0, 0))
             | None, Some l => Some (RR TLoss (map unseeded l) 0)
             | None, None => None end in
   match M_construct (tc_cfg c) (tc_samplers c) sc with
